@@ -1514,11 +1514,12 @@ func (ss *SegStore) FlushSegStats() error {
 			}
 		}
 		if found == 0 {
-			log.Errorf("FlushSegStats: no segstats to flush, found: %v cwips with data", found)
-			return errors.New("FlushSegStats: no segstats to flush")
-		} else {
-			return nil
+			// Only the timestamp column has data, so there are no stats to write. That is not
+			// an error: returning one made AppendWipToSegfile stop before the block was reset,
+			// and the same block was flushed again with a second block summary.
+			log.Debugf("FlushSegStats: no segstats to flush, segkey: %v", ss.SegmentKey)
 		}
+		return nil
 	}
 
 	tempSSTFile := fmt.Sprintf("%v.sst.tmp", ss.SegmentKey)
